@@ -38,7 +38,8 @@ META = {
                    "master and local branch on the new revision; a moved/diverged master refuses the commit with the state unchanged; "
                    "the commit writes master, local branch, tree in that order so a fault after any prefix never leaves the local "
                    "branch ahead; update equalises local and master when the master is not empty (refuted for an empty master: a "
-                   "candidate finding); pull from the master equalises, any pull keeps an in-step pair in step; a --local commit "
+                   "candidate finding) and never drops unmerged local commits (they stay in the ancestry of the tree's parents, also for a tree left "
+                   "behind its branch -- repaired in /repo b71bd73); pull from the master equalises, any pull keeps an in-step pair in step; a --local commit "
                    "changes only that checkout; without --local commits and unbind every local tip stays an ancestor-or-equal of the "
                    "master tip in all reachable states.  Contents, fetch between repositories, tags and hooks are not modelled."),
     "level_note": ("Trusted: Coq kernel, vm_compute, the hand model's correspondence (bounded sampling of operation sequences), "
@@ -118,7 +119,7 @@ def corpus():
     return [
         # the empty-master update (candidate finding C23-update-empty-master)
         _case(STD, False, [["c", 1, 1, -1], ["u", 1], ["c", 1, 0, -1]]),
-        # local tip written, tree not (fault), then update (candidate finding C23-update-stale-tree-drops-old-tip)
+        # local tip written, tree not (fault), then update: regression input of the repaired C23-update-stale-tree-drops-old-tip (must pass)
         _case(STD, True, [["c", 1, 1, 1], ["u", 1]]),
         # bound commit; stale light tree refused; update; commit
         _case(STD, True, [["c", 1, 0, -1], ["c", 2, 0, -1], ["u", 2], ["c", 2, 0, -1], ["c", 1, 0, -1], ["u", 1], ["c", 1, 0, -1]]),
@@ -419,9 +420,6 @@ def oracle(inp, obs):
             if b1[1] is not None and ps1[:1] != [b1[1]]:
                 return where + "update left the tree basis %r off the branch tip %r" % (ps1, b1)
             if heavy and bound0 and not _anc_opt(g, b0[1], m1[1]) and not any(_anc_opt(g, b0[1], p) for p in ps1):
-                if ps0[:1] != [b0[1]]:
-                    return "update-stale-tree: " + where + ("tree basis %r was behind the local tip %r; update dropped the "
-                                                          "local commits (old tip not reachable from the tree parents %r)" % (ps0, b0, ps1))
                 return where + "update dropped the local commits (old tip not reachable from the tree parents)"
             if not others_same:
                 return where + "update changed another checkout"
@@ -455,10 +453,6 @@ def finding_matches(fid, inp, obs, why):
     if fid == "C23-update-empty-master":
         # an update in a bound heavyweight checkout whose master is still empty
         return (not inp["root"]) and isinstance(why, str) and (why == "" or why.startswith("update-empty-master: "))
-    if fid == "C23-update-stale-tree-drops-old-tip":
-        # an update in a checkout whose tree was left behind its branch by an interrupted commit
-        return any(o[0] == "c" and o[3] >= 0 for o in inp["ops"]) and isinstance(why, str) and \
-            (why == "" or why.startswith("update-stale-tree: "))
     return False
 
 
